@@ -127,7 +127,7 @@ def run(tier, replay=None):
     spec_path, out_path = os.path.join(s, "c05_spec.json"), os.path.join(s, "c05_out.dat")
     json.dump({"fn_set": fn_set, "n": n, "data_dir": dd, "data_file": "d.txt"}, open(spec_path, "w"))
     results = {}
-    for P in ([1, 3] if tier == "quick" else [1, 2, 5]):
+    for P in ([1, 3, 12] if tier == "quick" else [1, 2, 5, 13]):      # two-digit rank numbers in the partial file names
         res = coord.run_ranks(P, "harness.targets:match_batch", (spec_path, out_path), s, timeout=3000)
         if res["status"] != "ok":
             bad = [k for k, cc in res["exit"].items() if cc not in (0, 86)]
@@ -195,7 +195,7 @@ def run(tier, replay=None):
         P, c, row = meta[min(len(meta) - 1, 40)]
         r.sample({"chain": c.get("chain"), "theta": c.get("theta"), "F": c.get("F"), "model_p": c.get("p"), "model_fd": c.get("fd"), "row": row[:5]})
     r.cov["rule"] = ("every (chain, theta, F) of Subs.tla's case space (chains of <= %s templates over neg/inv/swap/scale/square/lost, 4 parameter vectors straddling the snapping "
-                     "threshold, Fisher matrices with off-diagonal terms; k = 1 and 2%s) becomes a row of a synthetic library; the real match.main runs on 1..5 ranks; "
+                     "threshold, Fisher matrices with off-diagonal terms; k = 1 and 2%s) becomes a row of a synthetic library; the real match.main runs on 1..13 ranks; "
                      "each codelen_matches row is judged by SubsJudge (Snap!Admissible for the dropped set); plus every distinct chain of real libraries; non-trivial = distinct "
                      "non-empty (chain, theta, F)" % ("2/3" if tier == "quick" else "3/4", ", seeded sample of 3000" if tier == "quick" else ""))
     r.assumptions += ["P3: rationals evaluated in double precision; values passed through %.7e files are compared at 5e-7 (2e-6 for the length)",
